@@ -337,66 +337,80 @@ func checkVectors(res *result, lo, hi uint64, step uint64) {
 	cur := lo
 	for cur < hi {
 		n := length
-		vec := make([]float32, 0, n)
-		for len(vec) < n && cur < hi {
-			vec = append(vec, math.Float32frombits(uint32(cur)))
-			cur += step
+		if rem := (hi - cur + step - 1) / step; uint64(n) > rem {
+			n = int(rem)
 		}
-		b := conversion.Float32ToBytes(vec)
-		if len(b) != 4*len(vec) {
-			res.v("vector-length", "vector of %d floats encodes to %d bytes", len(vec), len(b))
+		if !oneVector(res, cur, n, step) {
 			return
 		}
-		// the byte layout is little-endian IEEE bits
-		for i := range vec {
-			if got := uint32(b[4*i]) | uint32(b[4*i+1])<<8 | uint32(b[4*i+2])<<16 | uint32(b[4*i+3])<<24; got != math.Float32bits(vec[i]) {
-				res.v("vector-layout", "float32 bits %08x at index %d stored as %08x", math.Float32bits(vec[i]), i, got)
-				return
-			}
-		}
-		stored := append([]byte{}, b...) // what a bucket would hand back
-		back := conversion.BytesToFloat32(stored)
-		// the storage buffer is reused by bbolt after the transaction: clobber it
-		for i := range stored {
-			stored[i] = 0xA5
-		}
-		if len(back) != len(vec) {
-			res.v("vector-roundtrip", "vector of %d floats decodes to %d floats", len(vec), len(back))
-			return
-		}
-		for i := range vec {
-			if math.Float32bits(back[i]) != math.Float32bits(vec[i]) {
-				res.v("vector-roundtrip", "float32 bits %08x at index %d of a %d-vector decode to %08x (after the source buffer was overwritten)", math.Float32bits(vec[i]), i, len(vec), math.Float32bits(back[i]))
-				return
-			}
-			sb := conversion.SingleFloat32ToBytes(vec[i])
-			if math.Float32bits(conversion.BytesToSingleFloat32(sb)) != math.Float32bits(vec[i]) {
-				res.v("single-float-roundtrip", "float32 bits %08x", math.Float32bits(vec[i]))
-				return
-			}
-		}
-		// what a bucket hands back starts at an arbitrary address: the same bytes at
-		// every offset 0..7 from an aligned base must decode to the same vector
-		for off := 0; off < 8; off++ {
-			buf := make([]byte, len(b)+8)
-			src := buf[off : off+len(b)]
-			copy(src, b)
-			got := conversion.BytesToFloat32(src)
-			if len(got) != len(vec) {
-				res.v("vector-roundtrip-unaligned", "vector of %d floats at source offset %d decodes to %d floats", len(vec), off, len(got))
-				return
-			}
-			for i := range vec {
-				if math.Float32bits(got[i]) != math.Float32bits(vec[i]) {
-					res.v("vector-roundtrip-unaligned", "float32 bits %08x at index %d of a %d-vector decode to %08x when the stored bytes start at offset %d from an aligned address", math.Float32bits(vec[i]), i, len(vec), math.Float32bits(got[i]), off)
-					return
-				}
-			}
-		}
-		res.Evals += int64(len(vec)) * 9
-		res.Nontriv++
+		cur += uint64(n) * step
 		length = length%4096 + 1
 	}
+}
+
+// oneVector round-trips one vector of n floats whose bit patterns start at
+// first and advance by step (mod 2^32).
+func oneVector(res *result, first uint64, n int, step uint64) bool {
+	vec := make([]float32, 0, n)
+	cur := first
+	for len(vec) < n {
+		vec = append(vec, math.Float32frombits(uint32(cur)))
+		cur += step
+	}
+	b := conversion.Float32ToBytes(vec)
+	if len(b) != 4*len(vec) {
+		res.v("vector-length", "vector of %d floats encodes to %d bytes", len(vec), len(b))
+		return false
+	}
+	// the byte layout is little-endian IEEE bits
+	for i := range vec {
+		if got := uint32(b[4*i]) | uint32(b[4*i+1])<<8 | uint32(b[4*i+2])<<16 | uint32(b[4*i+3])<<24; got != math.Float32bits(vec[i]) {
+			res.v("vector-layout", "float32 bits %08x at index %d stored as %08x", math.Float32bits(vec[i]), i, got)
+			return false
+		}
+	}
+	stored := append([]byte{}, b...) // what a bucket would hand back
+	back := conversion.BytesToFloat32(stored)
+	// the storage buffer is reused by bbolt after the transaction: clobber it
+	for i := range stored {
+		stored[i] = 0xA5
+	}
+	if len(back) != len(vec) {
+		res.v("vector-roundtrip", "vector of %d floats decodes to %d floats", len(vec), len(back))
+		return false
+	}
+	for i := range vec {
+		if math.Float32bits(back[i]) != math.Float32bits(vec[i]) {
+			res.v("vector-roundtrip", "float32 bits %08x at index %d of a %d-vector decode to %08x (after the source buffer was overwritten)", math.Float32bits(vec[i]), i, len(vec), math.Float32bits(back[i]))
+			return false
+		}
+		sb := conversion.SingleFloat32ToBytes(vec[i])
+		if math.Float32bits(conversion.BytesToSingleFloat32(sb)) != math.Float32bits(vec[i]) {
+			res.v("single-float-roundtrip", "float32 bits %08x", math.Float32bits(vec[i]))
+			return false
+		}
+	}
+	// what a bucket hands back starts at an arbitrary address: the same bytes at
+	// every offset 0..7 from an aligned base must decode to the same vector
+	for off := 0; off < 8; off++ {
+		buf := make([]byte, len(b)+8)
+		src := buf[off : off+len(b)]
+		copy(src, b)
+		got := conversion.BytesToFloat32(src)
+		if len(got) != len(vec) {
+			res.v("vector-roundtrip-unaligned", "vector of %d floats at source offset %d decodes to %d floats", len(vec), off, len(got))
+			return false
+		}
+		for i := range vec {
+			if math.Float32bits(got[i]) != math.Float32bits(vec[i]) {
+				res.v("vector-roundtrip-unaligned", "float32 bits %08x at index %d of a %d-vector decode to %08x when the stored bytes start at offset %d from an aligned address", math.Float32bits(vec[i]), i, len(vec), math.Float32bits(got[i]), off)
+				return false
+			}
+		}
+	}
+	res.Evals += int64(len(vec)) * 9
+	res.Nontriv++
+	return true
 }
 
 func boundaryIds() []uint64 {
@@ -722,6 +736,16 @@ func worker(raw json.RawMessage) (json.RawMessage, error) {
 		prefixes = append(prefixes, []byte("zz"), []byte{0xff, 0xff, 0xff})
 		scanCheck(res, "string", sk, prefixes)
 		res.Sample = map[string]any{"family": "all RangeScan(start,end,inclusive) with bounds from the family or nil, all PrefixScans, memstore and bbolt", "ints": len(ints), "floats": len(fl), "strings": len(ss)}
+	case "vector-lengths":
+		// one vector of every length Lo..Hi (bit patterns from a counter that
+		// visits every exponent), through the same round-trip checks
+		for n := int(j.Lo); n <= int(j.Hi); n++ {
+			lo := uint64(n) * 0x9E3779B1 % (1 << 32)
+			oneVector(res, lo, n, 0x01000193)
+			if len(res.Viols) > 0 {
+				break
+			}
+		}
 	case "vectors":
 		checkVectors(res, j.Lo, j.Hi, uint64(j.Arg))
 	}
@@ -737,7 +761,7 @@ func seq(a, b int) []int {
 }
 
 func master(cfg *harness.Config, rep *harness.Report) {
-	rep.Rule = "families: int64 ±2^k+δ (k<64,|δ|<=2) with all pairs; float64 all 2046 exponents x sign x 4 mantissa corners + zeros, subnormals, infinities in value order (adjacent pairs => all pairs by transitivity); all strings of length<=4 over 7 bytes; text-index term keys for all terms of length<=5 over the key marker bytes {t,s,d,a,00,ff} and the decoder on all candidate keys of length<=6; boundary uint64 ids x all 256 key suffixes; boundary uuids x 256 suffixes; edge lists of length 0..64 and 4096; float32 bit patterns (quick: 2^20 patterns with stride 4096 covering every sign/exponent and 12 mantissa bits, thorough: all 2^32) packed into vectors of length 1..4096, each decoded from the encoder's buffer and from copies at every source offset 0..7; all range/prefix scans over 15-value families on memstore and bbolt; thorough adds all int64 of the form v<<s (v any int32, s in {0,31}) and every non-NaN float32 widened to float64. non-trivial = sign/exponent boundary crossed between neighbours, proper sub-range scans, distinct ids"
+	rep.Rule = "families: int64 ±2^k+δ (k<64,|δ|<=2) with all pairs; float64 all 2046 exponents x sign x 4 mantissa corners + zeros, subnormals, infinities in value order (adjacent pairs => all pairs by transitivity); all strings of length<=4 over 7 bytes; text-index term keys for all terms of length<=5 over the key marker bytes {t,s,d,a,00,ff} and the decoder on all candidate keys of length<=6; boundary uint64 ids x all 256 key suffixes; boundary uuids x 256 suffixes; edge lists of length 0..64 and 4096; float32 bit patterns (quick: 2^20 patterns with stride 4096 covering every sign/exponent and 12 mantissa bits, thorough: all 2^32) packed into vectors, plus one vector of every length 1..4096; each decoded from the encoder's buffer and from copies at every source offset 0..7; all range/prefix scans over 15-value families on memstore and bbolt; thorough adds all int64 of the form v<<s (v any int32, s in {0,31}) and every non-NaN float32 widened to float64. non-trivial = sign/exponent boundary crossed between neighbours, proper sub-range scans, distinct ids"
 	rep.Assumptions = []string{"values outside the families (most int64/float64 bit patterns) are covered only in the thorough sweeps stated in the rule", "native little-endian machine: the raw float32 codec is the one selected at init"}
 	var jobs []json.RawMessage
 	add := func(j job) {
@@ -753,6 +777,10 @@ func master(cfg *harness.Config, rep *harness.Report) {
 	} else {
 		for _, k := range []string{"int-family", "float-family", "strings", "termkeys", "ids", "scans"} {
 			add(job{Kind: k})
+		}
+		// one vector of every length 1..4096 (the pattern sweeps below reach only short vectors per job in the quick tier)
+		for c := uint64(0); c < 16; c++ {
+			add(job{Kind: "vector-lengths", Lo: c*256 + 1, Hi: (c + 1) * 256})
 		}
 		if cfg.Quick() {
 			// 2^20 patterns: stride 4096 over the 2^32 space, 64 chunks
